@@ -117,3 +117,12 @@ def strict_sighting_pass(ctx: Ctx, scenarios: List[dict], traces: List[dict]) ->
         return 'plain'
     res = trace_run.triage(ctx, 'C12', scenarios, traces, verdicts, disc2)
     ctx.coverage['strict_sighting_pass'] = {'traces': len(traces), 'states': states, 'rejected': res.get('rejected', None)}
+
+
+def additional_pass(ctx: Ctx, scenarios: List[dict], traces: List[dict]) -> None:
+    """Third pass over the same executions for the clause C12_AdditionalWithinSecond (the one-second rule applied to the
+    additional records of a reply, finding D25); kept apart like the strict-sighting pass."""
+    verdicts, states, trans = trace_run.validate('Trace_Responder', traces, {'own': 'C12A'}, batch=250, par=4 if ctx.thorough else 3)
+    res = trace_run.triage(ctx, 'C12', scenarios, traces, verdicts,
+                           lambda sc, tr, clause, pos: 'additional-record-of-a-reply' if clause == 'C12_AdditionalWithinSecond' else 'plain')
+    ctx.coverage['additional_pass'] = {'traces': len(traces), 'states': states, 'rejected': res.get('rejections_by_clause')}
